@@ -888,6 +888,12 @@ def lim4(run):
         inner = [g for g in prog.real_fns() if g.kind == "Closure" and g.raw.get("parent") == f.id]
         prim_in_closure = any(re.search(prim, (t.get("callee") or "") + (t.get("resolved") or ""), re.I) for g in inner for _, t in g.calls())
         pushes = [bi for bi, t in f.calls() if (t.get("resolved") or "").endswith("Report::error_span")]
+        # ... or through a helper of the module that reports `out of range` and answers Err
+        for bi, t in f.calls():
+            h_ = prog.fn(t.get("resolved") or "")
+            if h_ is not None and h_.id != f.id and h_.id.startswith("util::bigint::") and any((t2.get("resolved") or "").endswith("Report::error_span") for _, t2 in h_.calls()) \
+                    and not any(re.search(r"num_bigint|num_traits", t2.get("callee") or "") for _, t2 in h_.calls()):
+                pushes.append(bi)
         key = "LIM4|" + name
         if kind == "cap":
             # (1) a comparison against BIGINT_MAX_BITS (possibly minus a small constant) exists
